@@ -370,6 +370,9 @@ func (cur *FieldMask) GetPath(desc *thrift_reflection.TypeDescriptor, path strin
 				if !cur.All() {
 					return nil, false
 				}
+				// NOTICE: '*' has no field descriptor, just deep to the shared sub mask
+				cur = cur.all
+				continue
 			} else {
 				return nil, false
 			}
